@@ -224,7 +224,20 @@ func runDirtyAfterChange(c *Ctx) {
 					}
 				}
 				key := fmt.Sprintf("dirty/%s#%d", short, k)
-				if escapes(NodeRef{b, i}, only, setsDirty(info)) {
+				// the flag raised in front of the change, in the same critical section, serves as well (only Flush lowers it)
+				raisedBefore := false
+				isDirty := setsDirty(info)
+				g.EachNode(func(r NodeRef) {
+					if !raisedBefore && isDirty(r.Node()) && !(r.B == b && r.I >= i) && g.Dominates(r, NodeRef{b, i}) {
+						switch r.Node().(type) {
+						case *ast.AssignStmt:
+							raisedBefore = true
+						}
+					}
+				})
+				if raisedBefore {
+					c.OK(key, at, "Sidecar."+short+": s.dirty is set in front of this change of the persisted state, on every path to it")
+				} else if escapes(NodeRef{b, i}, only, setsDirty(info)) {
 					c.Bad(key, at, "Sidecar."+short+" changes what Flush writes (reservations or bitmap) and can return without `s.dirty = true`: Flush does nothing while the flag is down, so the change reaches the disk only with the next unrelated one - "+
 						"after Confirm a completed file's metadata keep lacking the chunk that was under comparison (it is fetched again by the next run); after a new reservation the disk goes on claiming a chunk the sender may be replacing")
 				} else {
@@ -415,45 +428,6 @@ func runSidecarNilGuard(c *Ctx) {
 			if !guarded {
 				if base, ok := ast.Unparen(inner.X).(*ast.Ident); ok {
 					guarded = rangesOverFiltered(f, base, outer)
-				}
-			}
-			path := []ast.Node(nil)
-			for i := len(path) - 2; i >= 0 && !guarded; i-- {
-				child := path[i+1]
-				switch v := path[i].(type) {
-				case *ast.IfStmt:
-					if child == v.Body && condImpliesNonNil(v.Cond, true, what) {
-						guarded = true
-					}
-					if child == v.Else && condImpliesNonNil(v.Cond, false, what) {
-						guarded = true
-					}
-				case *ast.BinaryExpr:
-					if v.Op == token.LAND && child == v.Y && condImpliesNonNil(v.X, true, what) {
-						guarded = true
-					}
-					if v.Op == token.LOR && child == v.Y && condImpliesNonNil(v.X, false, what) {
-						guarded = true
-					}
-				case *ast.BlockStmt, *ast.CaseClause, *ast.CommClause:
-					var list []ast.Stmt
-					switch bl := v.(type) {
-					case *ast.BlockStmt:
-						list = bl.List
-					case *ast.CaseClause:
-						list = bl.Body
-					case *ast.CommClause:
-						list = bl.Body
-					}
-					for _, st := range list {
-						if st == child {
-							break
-						}
-						if is, ok := st.(*ast.IfStmt); ok && is.Else == nil && terminates(is.Body) && condImpliesNonNil(is.Cond, false, what) {
-							guarded = true
-						}
-						// the field assigned a fresh sidecar with its error tested is beyond this rule: only nil tests count
-					}
 				}
 			}
 			if guarded {
